@@ -25,6 +25,7 @@ import (
 	_ "mosn.io/mosn/pkg/filter/network/streamproxy"
 	"mosn.io/mosn/pkg/types"
 	_ "mosn.io/mosn/pkg/upstream/cluster"
+	"mosn.io/mosn/pkg/server"
 	tmosn "mosn.io/mosn/test/util/mosn"
 
 	"verif/harness/lab"
@@ -335,7 +336,7 @@ func c13E2E(c *lab.Ctx) {
 	}
 	reps := c.Pick(2, 12)
 	n := 0
-	for rep := 0; rep < reps; rep++ {
+	pass := func(rep int) {
 		// trust matrix and plaintext
 		for _, el := range []*c13E2EListener{authOff, authOn} {
 			for _, kind := range c13ClientPeerKinds {
@@ -393,6 +394,50 @@ func c13E2E(c *lab.Ctx) {
 			e.judgeUpstream(cs, o, o.RefEcho && got, !o.RefEcho && !got, upLeaves[u.kind])
 		}
 	}
+	for rep := 0; rep < reps; rep++ {
+		pass(rep)
+	}
+	// ---- runtime updates of the TLS listeners (the entry point LDS and the debug API use): the policy in force for NEW connections
+	// is the updated one. (1) the inspector flag flips on both trust-matrix listeners, (2) the selection listener gets its contexts
+	// in another order with one context dropped; then everything is judged again against the updated configuration; then back.
+	update := func(el *c13E2EListener, name string, specs []c13CtxSpec, insp bool) bool {
+		nl := &c13Listener{}
+		var tcs []v2.TLSConfig
+		for _, sp := range specs {
+			leaf := e.pki.serverLeaf(sp.Slot, sp.CA, sp.CN, sp.SANs)
+			nl.leaves = append(nl.leaves, leaf)
+			tcs = append(tcs, e.tlsConfigOf(sp, leaf))
+		}
+		lc := c13TCPProxyListener(name, el.addr, "c13-plain", tcs, insp)
+		if ta, err := net.ResolveTCPAddr("tcp", el.addr); err == nil {
+			lc.Addr = ta // what the configuration parser fills in for a listener that comes from a file / xDS
+		}
+		c.Case("e2e listener update %s inspector %v -> %v contexts %d -> %d", name, el.insp, insp, len(el.specs), len(specs))
+		if err := server.GetListenerAdapterInstance().AddOrUpdateListener("", &lc); err != nil {
+			c.Require("e2e listener update accepted: "+name, false, err.Error())
+			return false
+		}
+		el.specs, el.insp, el.l = specs, insp, nl
+		c.Count("e2e listener updates", 1)
+		return true
+	}
+	multiSpec2 := []c13CtxSpec{multiSpec[2], multiSpec[0]}
+	for round := 0; round < 2; round++ {
+		ok := update(authOff, "c13-auth-off", authSpec, !authOff.insp) && update(authOn, "c13-auth-on", authSpec, !authOn.insp)
+		if round == 0 {
+			ok = ok && update(multi, "c13-multi", multiSpec2, false)
+		} else {
+			ok = ok && update(multi, "c13-multi", multiSpec, false)
+		}
+		if !ok {
+			return
+		}
+		time.Sleep(50 * time.Millisecond)
+		for rep := 0; rep < (reps+1)/2; rep++ {
+			pass(rep)
+		}
+	}
+	reps += 2 * ((reps + 1) / 2)
 	c.Count("e2e cases", int64(n))
 	c.Exhaustive(false)
 	c.Sample(map[string]interface{}{"listeners": len(listeners), "clusters": len(clusters), "cases": n})
